@@ -81,7 +81,11 @@ def main():
     N, seed = int(sys.argv[1]), int(sys.argv[2])
     files = sys.argv[3:] or sorted(MAP)
     rng = random.Random(seed)
-    subprocess.call(['git', '-C', '/repo', 'worktree', 'remove', '--force', WT], stderr=subprocess.DEVNULL)
+    import glob
+    for old_wt in glob.glob('/tmp/mut-wt-*'):          # left behind by a killed campaign
+        if not os.path.exists('/proc/%s' % old_wt.rsplit('-', 1)[1]):
+            subprocess.call(['git', '-C', '/repo', 'worktree', 'remove', '--force', old_wt], stderr=subprocess.DEVNULL)
+    subprocess.call(['git', '-C', '/repo', 'worktree', 'prune'])
     subprocess.check_call(['git', '-C', '/repo', 'worktree', 'add', '-q', '--detach', WT, 'HEAD'])
     env = dict(os.environ, VERIF_REPO=WT, VERIF_JOBS=os.environ.get('MUT_JOBS', '8'))
     stats = dict(killed_by_suite=0, caught=0, inconclusive=0, survived=0, broken=0)
